@@ -28,13 +28,31 @@ def table_mutants():
 def table_seeds(log):
     rows=["| seed | confirmed (suite passes, demo fails with / passes without) | checks run: exit and first signatures |","|---|---|---|"]
     if not os.path.exists(log): return "(no seed log)"
+    got={}
     for l in open(log):
         if not l.startswith('seed='): continue
-        m=re.match(r"seed=\S*seeded/(C\d\d-\d)/? (.*?) \| (.*)",l.strip())
+        m=re.match(r"seed=\S*seeded/(C\d\d-\d+)/? (.*?) \| (.*)",l.strip())
         if not m: continue
-        conf='yes' if 'demo_clean=pass suite=pass nobatch_build=ok demo_patched=fail' in m.group(2) else m.group(2)
-        rows.append("| %s | %s | %s |"%(m.group(1),conf,m.group(3).replace('|','/').replace('[','').replace(']','')))
-    return "\n".join(rows)
+        if 'demo_clean=pass suite=pass nobatch_build=ok demo_patched=fail' in m.group(2): conf='yes'
+        elif 'confirmation skipped' in m.group(2): conf='yes (confirmed in the run of the round that produced it)'
+        else: conf=m.group(2)
+        got[m.group(1)]="| %s | %s | %s |"%(m.group(1),conf,m.group(3).replace('|','/').replace('[','').replace(']',''))
+    key=lambda k:(k.split('-')[0],int(k.split('-')[1]))
+    return "\n".join(rows+[got[k] for k in sorted(got,key=key)])
+def table_safe(log):
+    rows=["| change | summary (from the sub-agent) | repository suite | checks that did not exit 0 |","|---|---|---|---|"]
+    if not os.path.exists(log): return "(no log)"
+    got={}
+    for l in open(log):
+        if not l.startswith('patch='): continue
+        m=re.match(r"patch=\S*safe_changes/(\w+)/patch.diff (.*?) \| (.*)",l.strip())
+        if not m: continue
+        try: summ=json.load(open(root+'/safe_changes/%s/meta.json'%m.group(1))).get('summary','')
+        except Exception: summ=''
+        rest=m.group(3)
+        alarms=re.sub(r"\s*\|?\s*alarms=\d+","",rest).strip().strip('|').strip()
+        got[m.group(1)]="| %s | %s | %s | %s |"%(m.group(1),summ.replace('|','/')[:260],m.group(2),alarms.replace('|','/').replace('[','').replace(']','') or 'none')
+    return "\n".join(rows+[got[k] for k in sorted(got)])
 def put(s,name,body):
     b="<!-- BEGIN %s -->"%name; e="<!-- END %s -->"%name
     if b not in s: return s
@@ -45,4 +63,5 @@ s=put(s,'QUICK',table_quick())
 s=put(s,'THOROUGH',table_thorough(sys.argv[1] if len(sys.argv)>1 else ''))
 s=put(s,'MUTANTS',table_mutants())
 s=put(s,'SEEDS',table_seeds(sys.argv[2] if len(sys.argv)>2 else ''))
+s=put(s,'SAFE',table_safe(sys.argv[3] if len(sys.argv)>3 else ''))
 open(root+'/DESIGN.md','w').write(s)
